@@ -867,6 +867,9 @@ func c065(c *Ctx, r *Report) {
 			return nil, false
 		}
 		out := map[string]bool{}
+		pipelineStage := map[string]bool{"toBuffer": true, "ToHashable": true, "PreSign": true, "Copy": true, "Normalize": true}
+		inWrapper := map[*ssa.Function]bool{}
+		bound := map[*ssa.Parameter]ssa.Value{}
 		var walk func(v ssa.Value, acc []string, depth int)
 		walk = func(v ssa.Value, acc []string, depth int) {
 			if depth > 40 {
@@ -883,6 +886,27 @@ func c065(c *Ctx, r *Report) {
 				}
 				if cf == nil || !p.firstParty(cf.Pkg()) {
 					out[strings.Join(append(acc, "<"+name+">"), " <- ")] = true
+					return
+				}
+				// a first-party wrapper that is not one of the pipeline's own stages (`e.signedBytes()` wrapping
+				// PreSign → ToHashable → toBuffer) is looked through: its result is followed inside it, its
+				// parameters stand for the arguments of this call
+				if sc := x.Call.StaticCallee(); sc != nil && len(sc.Blocks) > 0 && len(sc.Blocks) <= 40 && depth < 30 && !pipelineStage[name] && !inWrapper[sc] {
+					inWrapper[sc] = true
+					for i, prm := range sc.Params {
+						if i < len(x.Call.Args) {
+							bound[prm] = x.Call.Args[i]
+						}
+					}
+					for _, b := range sc.Blocks {
+						if ret, ok := b.Instrs[len(b.Instrs)-1].(*ssa.Return); ok && len(ret.Results) > 0 {
+							if k, isC := ret.Results[0].(*ssa.Const); isC && k.IsNil() {
+								continue
+							}
+							walk(ret.Results[0], acc, depth+1)
+						}
+					}
+					delete(inWrapper, sc)
 					return
 				}
 				var next ssa.Value
@@ -911,6 +935,12 @@ func c065(c *Ctx, r *Report) {
 					return
 				}
 				walk(next, append(append([]string{}, acc...), name), depth+1)
+			case *ssa.Parameter:
+				if a, ok := bound[x]; ok {
+					walk(a, acc, depth+1)
+					return
+				}
+				out[strings.Join(append(acc, "entry"), " <- ")] = true
 			case *ssa.Phi:
 				for _, e := range x.Edges {
 					walk(e, acc, depth+1)
